@@ -78,6 +78,7 @@ type (
 		wg                  sync.WaitGroup
 		singletonExecutions map[string]any
 		postProcessors      []func() error
+		postProcessorsMut   sync.Mutex
 		dual                bool
 		options             *Options
 
@@ -574,7 +575,7 @@ func BuildFromAliasedTable(query *Query, as string, expr sqlparser.SimpleTableEx
 			if err != nil {
 				return err
 			}
-			query.postProcessors = append(query.postProcessors, subquery.postProcessors...)
+			query.addPostProcessors(subquery.postProcessors...)
 			query.wg.Add(1)
 			go func() {
 				subquery.wg.Wait()
@@ -1259,7 +1260,7 @@ func SelectExpr(query *Query, current Map, expr *sqlparser.SelectExprs, opts ...
 		case *sqlparser.StarExpr:
 			{
 				for key, value := range current {
-					query.postProcessors = append(query.postProcessors, func() error {
+					query.addPostProcessors(func() error {
 						delete(data, "<-")
 						return nil
 					})
@@ -1299,7 +1300,7 @@ func SelectExpr(query *Query, current Map, expr *sqlparser.SelectExprs, opts ...
 				// Async functions return pointers
 				// It's a good idea to convert them back to value types
 				if valueRaw, ok := valueRaw.(*any); ok {
-					query.postProcessors = append(query.postProcessors, func() error {
+					query.addPostProcessors(func() error {
 						if err != nil {
 							return err
 						}
@@ -1335,7 +1336,7 @@ func SubqueryExpr(query *Query, current Map, expr *sqlparser.Subquery, opts ...E
 	if err != nil {
 		return nil, err
 	}
-	query.postProcessors = append(query.postProcessors, subQuery.postProcessors...)
+	query.addPostProcessors(subQuery.postProcessors...)
 	query.wg.Add(1)
 	go func() {
 		subQuery.wg.Wait()
@@ -1398,7 +1399,7 @@ func ExistExpr(query *Query, current Map, expr *sqlparser.ExistsExpr, opts ...Ex
 	if !ok {
 		return false, INVALID_TYPE.Extend(fmt.Sprintf("failed to build `EXIST` expression. expected an array but found %T", array))
 	}
-	query.postProcessors = append(query.postProcessors, q.postProcessors...)
+	query.addPostProcessors(q.postProcessors...)
 	query.wg.Add(1)
 	go func() {
 		q.wg.Wait()
@@ -1413,7 +1414,7 @@ func FunExpr(query *Query, current Map, expr *sqlparser.FuncExpr, opts ...ExprOp
 	if name == "await" {
 		var rs any
 		var err error
-		query.postProcessors = append(query.postProcessors, func() error {
+		query.addPostProcessors(func() error {
 			slice, e := FuncArgReader(query, current, expr.Exprs)
 			if e != nil {
 				err = e
@@ -1904,6 +1905,16 @@ func AsError(r any) error {
 		return err
 	}
 	return fmt.Errorf("%v", r)
+}
+
+// addPostProcessors registers work that runs after the query has been executed.
+// The ON clause of a PARALLEL join is evaluated by several goroutines that share
+// the query (a subquery or EXISTS inside it registers post-processors), so the
+// list is guarded
+func (query *Query) addPostProcessors(postProcessors ...func() error) {
+	query.postProcessorsMut.Lock()
+	defer query.postProcessorsMut.Unlock()
+	query.postProcessors = append(query.postProcessors, postProcessors...)
 }
 
 func (query *Query) execAndPostProcess() (result any, err error) {
